@@ -323,7 +323,7 @@ func decorate(r *Rand, p *loginPlan) {
 				out = append(out, lPkg{K: "eedinfo", S: 1000 + r.Intn(1000)})
 			}
 			if r.Pct(15) {
-				out = append(out, lPkg{K: "env", S: Pick(r, []int{512, 1024, 2048, 4096, 300}), Zero: Pick(r, []string{"", "", "db-first", "three"})})
+				out = append(out, lPkg{K: "env", S: Pick(r, []int{512, 1024, 2048, 4096, 300}), Zero: Pick(r, []string{"", "", "db-first", "three", "lead0", "lead0-three"})})
 			}
 			out = append(out, x)
 		}
@@ -499,11 +499,15 @@ func (pk lPkg) encode(p *loginPlan) []byte {
 		return peer.Capability(req, resp)
 	case "env":
 		size := peer.EnvMember{Type: 4, New: fmt.Sprint(pk.S), Old: "512"}
+		if strings.HasPrefix(pk.Zero, "lead0") {
+			// a decimal number all the same
+			size.New, size.Old = "0"+size.New, "0512"
+		}
 		switch pk.Zero {
 		case "db-first":
 			// several members in one package, the packet size not the first of them
 			return peer.EnvChange(peer.EnvMember{Type: 1, New: "master", Old: "tempdb"}, size)
-		case "three":
+		case "three", "lead0-three":
 			return peer.EnvChange(peer.EnvMember{Type: 2, New: "us_english", Old: ""}, peer.EnvMember{Type: 3, New: "utf8", Old: "iso_1"}, size)
 		}
 		return peer.EnvChange(size)
